@@ -570,7 +570,7 @@ READ_OBSERVES = {
     'vclock': ['C02', 'C03', 'C04', 'C05', 'C06', 'C07', 'C08', 'C09', 'C10', 'C11', 'C18', 'C20'],
     'gcounter': ['C02', 'C03', 'C11', 'C18'], 'pncounter': ['C02', 'C03', 'C11', 'C18'],
     'maxreg': ['C02', 'C03', 'C11'], 'minreg': ['C02', 'C03', 'C11'], 'gset': ['C02', 'C03', 'C11'], 'lwwreg': ['C02', 'C03', 'C11'],
-    'list': ['C12', 'C13', 'C09'], 'glist': ['C02', 'C12', 'C13', 'C14'], 'merkle_reg': ['C02', 'C03', 'C15'],
+    'list': ['C12', 'C09'], 'glist': ['C02', 'C12', 'C14'], 'merkle_reg': ['C02', 'C03', 'C15'],
 }
 READ_WHY = 'the property is stated over what replicas read: a read that hides, adds or reorders stored data changes the observation ' \
            'on every history that reaches such a state'
